@@ -64,7 +64,7 @@ def run(ctx):
             cases.append(["rsmock " + (";".join("%s:%s:%s" % x for x in w) if w else "-")] + ["rcall"] * n + ["cleanup"])
             meta.append(("rs", w, n))
     # exchange stub scripts up to length 4 over {plain, wrapped ErrClosed, ErrClosed, block 0, block 3ms, nil}
-    toks = ["e1", "wclosed", "closed", "b0", "b3", "bn", "nil"]
+    toks = ["e1", "wclosed", "closed", "b0", "b3", "bn", "nil", "wb3", "wb0"]
     for n in range(0, 4 if ctx.quick() else 5):
         seqs = list(itertools.product(toks, repeat=n))
         if len(seqs) > 220:
@@ -155,8 +155,8 @@ def run(ctx):
             ef, seq = m[1], m[2]
             if ef == "nil" and not (io and io[0] == "exstub panic"):
                 if len(io) > 1 and io[1].startswith("ecall ") and not io[1].startswith("ecall err"):
-                    deliv = [t for t in seq if not t.startswith("b")]
-                    openend = bool(seq) and (seq[-1] in ("closed", "wclosed", "b0"))
+                    deliv = [t for t in seq if not t.startswith(("b", "wb"))]
+                    openend = bool(seq) and (seq[-1] in ("closed", "wclosed", "b0", "wb0"))
                     want = "ecall %s %s" % (",".join(deliv) if deliv else "-", "open" if openend else "closed")
                     if io[1] != want:
                         bad = ("exchange-stub", "exchange stub script %s: got `%s`, want `%s`" % (",".join(seq), io[1], want))
